@@ -116,9 +116,11 @@ def keyof(v):
     if isinstance(v, Date):
         rd = v.rd
         if is_sym(rd):
-            rd = z3.simplify(rd)
-            return ("D", rd)
-        return ("D", rd)
+            lf = _i.linform(z3.simplify(rd))
+            if lf is None:
+                raise _i.Unsupported("symbolic date key")
+            return ("D", tuple(sorted(lf[0].items())), int(lf[1]))
+        return ("D", (), rd)
     if isinstance(v, int):
         return v
     raise _i.Unsupported("map key %r" % (v,))
@@ -214,7 +216,7 @@ def build_table(I):
 
     @reg("f64::floor")
     def f_floor(I, st, a, c):
-        return I.ffloor(a[0])
+        return I.ffloor(a[0], st)
 
     @reg("f64::ceil")
     def f_ceil(I, st, a, c):
@@ -337,6 +339,22 @@ def build_table(I):
     @reg("PartialEq::ne")
     def t_ne(I, st, a, c):
         return bnot(t_eq(I, st, a, c))
+
+    @reg("Ord::max", "i64::max", "i32::max", "usize::max", "f64::max")
+    def t_max(I, st, a, c):
+        x, y = a
+        if not is_sym(x) and not is_sym(y):
+            return max(x, y)
+        x, y = I.coerce(x, y)
+        return z3.If(x >= y, x, y)
+
+    @reg("Ord::min", "i64::min", "i32::min", "usize::min", "f64::min")
+    def t_min(I, st, a, c):
+        x, y = a
+        if not is_sym(x) and not is_sym(y):
+            return min(x, y)
+        x, y = I.coerce(x, y)
+        return z3.If(x <= y, x, y)
 
     @reg("From::from", "Into::into")
     def t_from(I, st, a, c):
@@ -602,7 +620,10 @@ def build_table(I):
                 if d == disc:
                     return Enum(ty, disc, {vn: ()})
         if isinstance(kk, tuple) and kk[0] == "D":
-            return Date(kk[1])
+            rd = kk[2]
+            for aid, c in kk[1]:
+                rd = rd + int(c) * _i.Interp._atoms[aid]
+            return Date(rd)
         return kk
 
     @reg("BTreeMap::append")
@@ -643,6 +664,14 @@ def build_table(I):
     @reg("boxed::box_assume_init_into_vec_unsafe")
     def box_into_vec(I, st, a, c):
         v = deref(I, st, a[0])
+        while not isinstance(v, Arr):
+            if isinstance(v, Tup):
+                nxt = [x for x in v.items if x is not None]
+                if len(nxt) != 1:
+                    raise _i.Unsupported("box_assume_init: ambiguous content")
+                v = nxt[0]
+            else:
+                raise _i.Unsupported("box_assume_init of %r" % (v,))
         return VecV(v.items)
 
     @reg("slice::iter", "Vec::iter")
